@@ -490,7 +490,8 @@ example : getctlInt (sysAfter Cfg.repaired false [.ctl (some .cursorshape) 2, .r
 
 /-! ### the mode state at hand-over as a parameter: a terminal handed over with its cursor hidden -/
 
-/-- **handover_restores** (full statement; open for a hidden cursor, see `handover_restores_partial`).  The mode
+/-- **handover_restores** (full statement; proved at the end of this file: `handover_restores`,
+    `handover_restores_history_partial`; `handover_restores_partial` is the earlier per-ending form).  The mode
     state the terminal is handed over in is a parameter of the history, not a constant: for every such state
     (`VModes.handover`: cursor visible or hidden), every history inside the contract whose replies are those of
     that terminal and which leaves cursor visibility alone when the cursor was handed over hidden
@@ -964,7 +965,8 @@ theorem validFromW_extends : ∀ (ops : List Op) (ph ph' : Phase), validFrom ph 
         exact validFromW_extends rest p1 ph' h
     · cases h
 
-/-- The full clause over the wide protocol (operations between pause and resume admitted). -/
+/-- The full clause over the wide protocol (operations between pause and resume admitted); proved below:
+    `teardown_restores_w`, `teardown_restores_w_partial`. -/
 def TeardownRestoresW (cfg : Cfg) : Prop :=
   ∀ (toplevel : Bool) (m0 : VModes) (ops : List Op) (ph : PhaseW), m0.standard = true →
     validFromW .running ops = some ph →
